@@ -183,6 +183,8 @@ const char* String::findLast(const char* in, const char* str)
     if(!match)
       return result;
     result = match;
+    if(!*match)
+      return result; // an empty str matches at the terminator; there is nothing behind it
     match = strstr(match + 1, str);
   }
 }
